@@ -8,6 +8,7 @@ use std::sync::Arc;
 use taskchampion_sync_server_core::{
     AddVersionResult, ServerError, SnapshotUrgency, VersionId, NIL_VERSION_ID,
 };
+use uuid::Uuid;
 
 /// Max history segment size: 100MB
 const MAX_SIZE: usize = 100 * 1024 * 1024;
@@ -81,14 +82,32 @@ pub(crate) async fn service(
                 Ok(rb.finish())
             }
             Err(ServerError::NoSuchClient) => {
-                // Create a new client and repeat the `add_version` call.
+                // Create the new client and add its first version in a single transaction.
+                // Creating the client in a transaction of its own let two overlapping first
+                // requests both create it (with the SQLite backend, resetting its latest
+                // version, so that both were accepted on the same parent; with the in-memory
+                // backend, failing one of them with a server error), and let other requests
+                // observe the client without its first version.
                 let mut txn = server_state
                     .server
                     .txn(client_id)
                     .map_err(server_error_to_actix)?;
+                if txn.get_client().map_err(failure_to_ise)?.is_some() {
+                    // Another request created the client in the meantime: repeat the
+                    // `add_version` call, which will now find it.
+                    drop(txn);
+                    continue;
+                }
+                let version_id = Uuid::new_v4();
                 txn.new_client(NIL_VERSION_ID).map_err(failure_to_ise)?;
+                txn.add_version(version_id, parent_version_id, body.to_vec())
+                    .map_err(failure_to_ise)?;
                 txn.commit().map_err(failure_to_ise)?;
-                continue;
+                let mut rb = HttpResponse::Ok();
+                rb.append_header((VERSION_ID_HEADER, version_id.to_string()));
+                // A new client has no snapshot, so one is needed right away.
+                rb.append_header((SNAPSHOT_REQUEST_HEADER, "urgency=high"));
+                Ok(rb.finish())
             }
             Err(e) => Err(server_error_to_actix(e)),
         };
